@@ -251,18 +251,20 @@ Theorem C07_single_page_targets : forall ps, plan_fine ps ->
   follows (ps_faults ps) None [] (fst (fetch_one MSession None ps)) = true.
 Proof. exact single_targets. Qed.
 
-(* the acceptor of the single-page cases, unfolded: [accept_single] IS the conjunction of three
-   tests (result = model's, keys = model's, nodes obey the plan rules); since the model's keys
-   are by definition the caller's state repeated, acceptance implies [prop_single_ok].  These two
-   statements decompose the acceptor's definition; they carry no content beyond it.  The content
-   for kind P is the predicate [prop_single_ok] evaluated on the implementation's own requests. *)
-Theorem C07_accept_single_unfolds : forall st ps obs ok nodes_,
-  accept_single st ps obs ok nodes_ = true ->
-  prop_single_ok st ok = true /\ obs = single_result (snd (single_run st ps)) /\
-  List.length ok = List.length (fst (fetch_one MSession None ps)) /\
+(* the acceptor of the single-page cases against the LOOP-FREE specification (plans enumerate
+   the nodes): an accepted observation carries the caller's state on every request; the caller got,
+   exactly once, the result or the error the closed form [spec_page_closed] says; the server saw
+   the closed-form number of requests [requests_closed]; the nodes obey the plan rules.
+   (Replaces the definitional C07_accept_single_unfolds.) *)
+Theorem C07_accept_single_sound : forall nodes st ps obs ok nodes_,
+  accept_single st ps obs ok nodes_ = true -> NoDup nodes -> page_ok nodes ps -> nodes <> [] ->
+  prop_single_ok st ok = true /\
+  obs = sres_of (spec_page_closed MSession (List.length nodes) ps) /\
+  List.length ok = requests_closed (ps_faults ps) (List.length nodes - 1) 0 /\
   follows (ps_faults ps) None [] nodes_ = true.
-Proof. exact accept_single_sound. Qed.
+Proof. exact accept_single_sound_closed. Qed.
 
+(* the model's own single-page run is accepted (reflexivity of the tests + C07_single_page_targets) *)
 Theorem C07_accept_single_accepts_model : forall st ps, plan_fine ps ->
   accept_single st ps (single_result (snd (single_run st ps))) (fst (single_run st ps))
                 (fst (fetch_one MSession None ps)) = true.
@@ -283,6 +285,31 @@ Proof. exact drop_timeout_sound. Qed.
    used up; otherwise the response arrives.  Equal to the recursive [spec_page] used above. *)
 Theorem C07_page_outcome_closed_form : forall m n ps, spec_page m n ps = spec_page_closed m n ps.
 Proof. exact spec_page_closed_eq. Qed.
+
+(* how many requests a page needs, for ANY duplicate-free plan: one per sent fault before the
+   fault that ends the request, plus the ending attempt (unless the request ended on a target
+   whose connection could not be acquired), plus the successful attempt when nothing ends it.
+   In particular RetryNextTarget / an unavailable connection is followed by another attempt
+   exactly while a spare target remains. *)
+Theorem C07_attempts_request_count : forall fs resp t rest used,
+  List.length (fst (attempts fs resp t rest)) = requests_closed fs (List.length rest + used) used.
+Proof. exact attempts_count. Qed.
+
+Theorem C07_page_request_count : forall nodes stable ps, NoDup nodes -> page_ok nodes ps ->
+  stable_ok MSession nodes stable -> nodes <> [] ->
+  List.length (fst (fetch_one MSession stable ps)) =
+  requests_closed (ps_faults ps) (List.length nodes - 1) 0.
+Proof. exact fetch_count. Qed.
+
+(* coordinator stability tightened (a theorem about the model, [coord_ok] itself stays lax): every
+   page of the model's target trace has exactly the closed-form length, so a page's requests end
+   early only when the plan has run out *)
+Theorem C07_coordinator_page_lengths : forall nodes, NoDup nodes -> nodes <> [] ->
+  forall script stable, Forall (page_ok nodes) script -> stable_ok MSession nodes stable ->
+  map (@List.length N) (worker_targets stable script) =
+  map (fun ps => requests_closed (ps_faults ps) (List.length nodes - 1) 0)
+      (firstn (List.length (worker_targets stable script)) script).
+Proof. exact targets_count. Qed.
 
 (* ---- non-vacuity: concrete scripts and schedules ---------------------------------------- *)
 Definition ex_script : list pscript :=
@@ -524,6 +551,24 @@ Example C07_ex_drop_timeout :
   accept_drop_timeout MSession ex_t_script 2 [IErr 65536; IEnd] [(0%nat, None); (1%nat, Some [7])] = false.
 Proof. repeat split; vm_compute; reflexivity. Qed.
 
+Example C07_ex_request_count :
+  (* success after two same-target retries *)
+  requests_closed [FErr 1 DSame; FUnprep] 0 0 = 3%nat /\
+  (* next-target with a spare target: another attempt follows; without: the page ends there *)
+  requests_closed [FErr 1 DNext] 1 0 = 2%nat /\
+  requests_closed [FErr 1 DNext] 0 0 = 1%nat /\
+  (* a connection that cannot be acquired sends nothing *)
+  requests_closed [FConnFail] 1 0 = 1%nat /\
+  requests_closed [FConnFail] 0 0 = 0%nat /\
+  requests_closed [FErr 1 DNext; FConnFail; FErr 2 DSame] 2 0 = 3%nat /\
+  requests_closed [FErr 1 DNext; FConnFail; FErr 2 DSame] 1 0 = 1%nat /\
+  (* terminal faults end the page with their own attempt *)
+  requests_closed [FErr 1 DSame; FTimeout; FErr 2 DSame] 3 0 = 2%nat /\
+  List.length (fst (attempts [FErr 1 DNext; FConnFail; FErr 2 DSame] RVoid 0 [1; 2])) = 3%nat /\
+  sres_of (PoIgnored 5) = SVoid /\ sres_of (PoResp RNonResult) = SErr e_unexpected /\
+  sres_of (PoErr 7) = SErr 7 /\ sres_of (PoResp (RRows [1] None)) = SRows [1] None.
+Proof. repeat split; vm_compute; reflexivity. Qed.
+
 Print Assumptions C07_rows.
 Print Assumptions C07_rows_safety.
 Print Assumptions C07_ends.
@@ -551,7 +596,10 @@ Print Assumptions C07_coordinator_stability.
 Print Assumptions C07_seq_targets_are_requests.
 Print Assumptions C07_single_page_outcome.
 Print Assumptions C07_single_page_targets.
-Print Assumptions C07_accept_single_unfolds.
+Print Assumptions C07_accept_single_sound.
 Print Assumptions C07_accept_single_accepts_model.
 Print Assumptions C07_drop_timeout_sound.
 Print Assumptions C07_page_outcome_closed_form.
+Print Assumptions C07_attempts_request_count.
+Print Assumptions C07_page_request_count.
+Print Assumptions C07_coordinator_page_lengths.
